@@ -373,42 +373,7 @@ Section Shard.
   (** Search only evaluates the query on documents of repositories that are not tombstoned *)
   Definition live {D} (sh : shard) (repo_of : D -> nat) (d : D) : Prop :=
     exists r, nth_error (sh_repos sh) (repo_of d) = Some r /\ r_tomb r = false.
-  (** shard invariant: LanguageMap has a key for the language of every document *)
-  Definition langs_closed {D} (base : atoms D) (sh : shard) : Prop :=
-    forall l d, a_lang base l d = true -> mem_str l (sh_langs sh) = true.
+  (** shard invariant, for the document at hand: LanguageMap has a key for its language *)
+  Definition langs_closed {D} (base : atoms D) (sh : shard) (d : D) : Prop :=
+    forall l, a_lang base l d = true -> mem_str l (sh_langs sh) = true.
 End Shard.
-
-(** ------------------------------------------------------------------ correspondence runner *)
-
-Fixpoint table_lookup (t : list (str * str * bool)) (re s : str) : bool :=
-  match t with
-  | [] => false
-  | (re', s', b) :: r => if str_eqb re' re && str_eqb s' s then b else table_lookup r re s
-  end.
-
-Definition mk_repo (t : bool * N * str * N * list (str * str)) : repo :=
-  let '(tomb, id, name, rc, meta) := t in
-  {| r_tomb := tomb; r_id := id; r_name := name; r_rc := rc; r_meta := meta |}.
-
-(** One case = the rewrite that was run on the implementation, its input tree and the tree the
-    implementation returned. *)
-Inductive c05case : Type :=
-| CSimplify (q out : Q)                      (* query.Simplify *)
-| CExpand (q out : Q)                        (* query.Map(q, query.ExpandFileContent) *)
-| CShard (repos : list (bool * N * str * N * list (str * str))) (langs : list str)
-         (retab : list (str * str * bool)) (q out : Q)      (* indexData.simplify *)
-| CEvalConst (q out : Q)                     (* query.evalConstants *)
-| CFlatten (q out : Q) (changed : bool)      (* query.flatten (one round) *)
-| CStrip (q out : Q).                        (* query.stripCaseScopes *)
-
-Definition c05_ok (c : c05case) : bool :=
-  match c with
-  | CSimplify q out => q_eqb (Simplify q) out
-  | CExpand q out => q_eqb (qmap ExpandFileContent q) out
-  | CShard repos langs retab q out =>
-      q_eqb (shard_simplify (table_lookup retab) {| sh_repos := map mk_repo repos; sh_langs := langs |} q) out
-  | CEvalConst q out => q_eqb (evalConstants q) out
-  | CFlatten q out chg => let (o, c) := flatten q in q_eqb o out && Bool.eqb c chg
-  | CStrip q out => q_eqb (stripCaseScopes q) out
-  end.
-Definition c05_mismatches (cs : list c05case) : list N := bad_indexes c05_ok cs.
